@@ -316,7 +316,7 @@ func translatePath(p string, callee *ssa.Function, c *ssa.CallCommon) (string, b
 		root, rest = p[:i], p[i:]
 	}
 	for i, prm := range callee.Params {
-		if prm.Name() == root && i < len(c.Args) {
+		if pname(prm) == root && i < len(c.Args) {
 			return pathOf(c.Args[i]) + rest, true
 		}
 	}
